@@ -169,6 +169,9 @@ def simple_if_function(fn, consts):
 # ------------------------------------------------------------------ SQL ladders
 
 
+MIRROR = {ast.Lt: ast.Gt, ast.Gt: ast.Lt, ast.LtE: ast.GtE, ast.GtE: ast.LtE, ast.Eq: ast.Eq, ast.NotEq: ast.NotEq}
+
+
 def ladder_of(sql_type_fn, consts, start_var_names=("limit", "length")):
     """The `if ansi_type == "int":` part of a dialect's sql_type as a list of rungs
     (cmp, bound, or_none, type_name, arity) plus the else type (None = unchanged ANSI type)."""
@@ -204,6 +207,10 @@ def ladder_of(sql_type_fn, consts, start_var_names=("limit", "length")):
         if isinstance(test, ast.BoolOp) and isinstance(test.op, ast.Or) and len(test.values) == 2 and ast.unparse(test.values[1]) == "%s is None" % var:
             test = test.values[0]
             or_none = True
+        if isinstance(test, ast.Compare) and len(test.ops) == 1 and type(test.ops[0]) in MIRROR and isinstance(test.comparators[0], ast.Name) \
+                and test.comparators[0].id == var and not (isinstance(test.left, ast.Name) and test.left.id == var):
+            # `CONSTANT >= limit` is `limit <= CONSTANT` written the other way round
+            test = ast.Compare(left=test.comparators[0], ops=[MIRROR[type(test.ops[0])]()], comparators=[test.left])
         if not (isinstance(test, ast.Compare) and len(test.ops) == 1 and type(test.ops[0]) in CMP_NAME and isinstance(test.left, ast.Name) and test.left.id == var):
             fail(node.test, "rung test must compare the limit with a constant")
         bound = consts.ev(test.comparators[0])
